@@ -982,3 +982,15 @@ DAGGER seq1(pi/2) 0
         )
     }
 }
+
+#[cfg(rigetti_quil_rs_verif)]
+impl DefGateSequenceExpansion<'_> {
+    /// Verification hook (add-only): name and Quil text of the recorded source signature.
+    pub(crate) fn verif_source_signature(&self) -> (String, String) {
+        use crate::quil::Quil;
+        (
+            self.source_signature.name().to_string(),
+            self.source_signature.to_quil_or_debug(),
+        )
+    }
+}
